@@ -11,6 +11,7 @@ import (
 	"strconv"
 	"strings"
 	"sync"
+	"sync/atomic"
 	"time"
 )
 
@@ -29,6 +30,13 @@ type halfPipe struct {
 	tap     []byte // every byte ever written
 	reads   []int  // size of every successful Read
 	total   int    // bytes ever written
+	// deadlock detection: waiting = the party reading this direction is blocked until somebody
+	// writes into it; peer = the opposite direction.  Both waiting at once means neither party
+	// can ever make progress (a blocked handshake): both directions are closed, the parties see
+	// the end of the transport, and the case takes no wall-clock time.
+	waiting atomic.Bool
+	peer    *halfPipe
+	dead    *atomic.Bool
 }
 
 func newHalfPipe(chunks []int) *halfPipe {
@@ -46,8 +54,28 @@ func (h *halfPipe) Write(p []byte) (int, error) {
 	h.buf = append(h.buf, p...)
 	h.tap = append(h.tap, p...)
 	h.total += len(p)
+	h.waiting.Store(false)
 	h.cond.Broadcast()
 	return len(p), nil
+}
+
+// aboutToWait is called with h.mu held right before blocking for data on h.
+func (h *halfPipe) aboutToWait() {
+	h.waiting.Store(true)
+	if h.peer != nil && h.peer.waiting.Load() {
+		if h.dead != nil {
+			h.dead.Store(true)
+		}
+		go func(a, b *halfPipe) {
+			for _, x := range []*halfPipe{a, b} {
+				x.mu.Lock()
+				x.wclosed = true
+				x.rclosed = true
+				x.cond.Broadcast()
+				x.mu.Unlock()
+			}
+		}(h, h.peer)
+	}
 }
 
 func (h *halfPipe) Read(p []byte) (int, error) {
@@ -63,6 +91,7 @@ func (h *halfPipe) Read(p []byte) (int, error) {
 		if h.wclosed {
 			return 0, io.EOF
 		}
+		h.aboutToWait()
 		h.cond.Wait()
 	}
 	n := len(p)
@@ -88,6 +117,7 @@ func (h *halfPipe) Read(p []byte) (int, error) {
 func (h *halfPipe) closeWrite() {
 	h.mu.Lock()
 	h.wclosed = true
+	h.waiting.Store(false)
 	h.cond.Broadcast()
 	h.mu.Unlock()
 }
@@ -95,6 +125,7 @@ func (h *halfPipe) closeWrite() {
 func (h *halfPipe) closeRead() {
 	h.mu.Lock()
 	h.rclosed = true
+	h.waiting.Store(false)
 	h.cond.Broadcast()
 	h.mu.Unlock()
 }
@@ -108,6 +139,7 @@ func (h *halfPipe) waitTotal(n int) bool {
 		if h.wclosed || h.rclosed {
 			return false
 		}
+		h.aboutToWait()
 		h.cond.Wait()
 	}
 	return true
@@ -156,6 +188,9 @@ func (e *pipeEnd) SetWriteDeadline(t time.Time) error { return nil }
 func newDuplex(chunksA, chunksB []int) (a, b *pipeEnd, a2b, b2a *halfPipe) {
 	a2b = newHalfPipe(chunksB)
 	b2a = newHalfPipe(chunksA)
+	a2b.peer, b2a.peer = b2a, a2b
+	dead := new(atomic.Bool)
+	a2b.dead, b2a.dead = dead, dead
 	return &pipeEnd{r: b2a, w: a2b}, &pipeEnd{r: a2b, w: b2a}, a2b, b2a
 }
 
